@@ -44,7 +44,18 @@ def C06(tier):
 
 
 def C07(tier):
-    return _count('C07', ['C07'], ['tie', 'single-exclusion', 'batch-exclusion', 'surplus-choice', 'tie-by-prior-stage'], tier, symtie=True)
+    r = _count('C07', ['C07'], ['tie', 'single-exclusion', 'batch-exclusion', 'surplus-choice', 'tie-by-prior-stage'], tier, symtie=True)
+    # when no tie is logged the record does not depend on the tie-break order: second count with an independent symbolic permutation
+    quick = tier != 'thorough'
+    for rule, opts in RULE_CFGS:
+        slow = rule in ('qpq', 'meek-prf') or opts.get('arithmetic') == 'guarded'
+        r['jobs'].append(djob('tie2', rule, opts, 3, 2, 2 if slow else 3, (4 if slow else 5) + (0 if quick else 1), symtie=True, budget=300 if quick else 1500))
+    if not quick:
+        for rule, opts in [('wigm-prf-batch', {}), ('scotland', {}), ('cfer-batch', {}), ('mpls', {})]:
+            r['jobs'].append(djob('tie2', rule, opts, 4, 2, 2, 5, symtie=True, budget=1500, weight=5))
+    r['require_reach'] = r['require_reach'] + ['no-tie-logged', 'tie-logged']
+    r['assumptions'] = r['assumptions'] + DIFF_ASSUME[-1:]
+    return r
 
 
 def C08(tier):
@@ -394,8 +405,22 @@ def C17(tier):
                     extraB = '[droop %s]' % ptxt
                 jobs.append(djob('opts', rule, {}, 3, 2, 2 if slow else 3, 4 if slow else 5, optionsA=dict(rule=rule), optionsB=optsB, extraB=extraB,
                                  budget=300 if quick else 1500, perturb='%s:%d' % (src, k)))
+    # report header lines and the record's option layers, on every path of a small count (ballot total fixed: the header prints it)
+    FORCED = {'scotland': dict(arithmetic='fixed', precision=5, display=5), 'mpls': dict(arithmetic='fixed', precision=4, display=4),
+              'wigm-prf': dict(arithmetic='fixed', precision=4, display=4), 'cfer': dict(arithmetic='fixed', precision=5, display=5),
+              'meek-prf': dict(arithmetic='fixed', precision=9, display=9, omega=6), 'qpq': dict(arithmetic='guarded', precision=9, guard=9, display=9)}
+    for rule, forced in FORCED.items():
+        cmd = {'arithmetic': 'rational', 'precision': forced['precision'], 'omega': 3, 'bogus': 1}
+        filed = {'precision': 7, 'guard': 2, 'display': forced['display']}
+        supplied = dict(filed)
+        supplied.update(cmd)
+        declared = set(forced) | {'defeat_batch'} if False else set(forced)
+        unused = sorted(k for k in set(cmd) | set(filed) if k not in declared)
+        overridden = sorted(k for k in forced if k in supplied and supplied[k] != forced[k])
+        jobs.append(grid.job(rule, cmd, 3, 2, 2, 4, ['C17h'], 300, fixed_total=True, droop_line=' '.join('%s=%s' % kv for kv in filed.items()),
+                             expect_unused=unused, expect_overridden=overridden, expect_file=filed, expect_force=forced, weight=2))
     return dict(jobs=jobs, level_text=LEVEL_DIFF + '; option layering: the real Options methods run on symbolic option values for every presence pattern of the four layers',
-                assumptions=DIFF_ASSUME, require_reach=['pair-compared', 'layer-assignments'],
+                assumptions=DIFF_ASSUME, require_reach=['pair-compared', 'layer-assignments', 'header-checked'],
                 bounds=dict(perturbations=[p for _, p in PERTURB], sources=['caller', '[droop ...] line', 'both'], statutory_rules=STATUTORY,
                             candidates=3, ballots_max=5))
 
